@@ -213,7 +213,7 @@ Lemma set_ok : forall v k a, Forall (tok (allowed st (OSet v k a))) (snd (op_set
 Proof.
   intros v k a. unfold op_set, with_view, fail. destruct (nth_error (views st) v) as [vw|] eqn:Hv; [|constructor].
   destruct (co_val st a) as [st1 p].
-  destruct (num_to_raw m (v_kind vw) true p); [|destruct (key_converts m k); constructor].
+  destruct (num_to_raw m (v_kind vw) true p); [|constructor].
   destruct k as [z|]; [|constructor].
   destruct (valid_idx st1 vw z) eqn:Hvi; [|constructor].
   apply valid_idx_true in Hvi. destruct Hvi. unfold put_raw. simpl.
@@ -297,13 +297,9 @@ Proof.
   intros v a s e. unfold op_fill, with_view, fail.
   destruct (nth_error (views st) v) as [vw|] eqn:Hv; [|constructor].
   destruct (is_det st (v_buf vw)); [constructor|].
-  destruct m.
-  - destruct (co_val st a) as [s1 p]. destruct (num_to_raw MS _ _ _); [|constructor].
-    destruct (co_opt s1 s 0) as [s2 rs]. destruct (co_opt s2 e (v_len vw)) as [s3 re].
-    eapply fill_tail_ok; eauto using incl_refl.
-  - destruct (co_opt st s 0) as [s1 rs]. destruct (co_opt s1 e (v_len vw)) as [s2 re].
-    destruct (co_val s2 a) as [s3 p]. destruct (num_to_raw MI _ _ _); [|constructor].
-    eapply fill_tail_ok; eauto using incl_refl.
+  destruct (co_val st a) as [s1 p]. destruct (num_to_raw m _ _ _); [|constructor].
+  destruct (co_opt s1 s 0) as [s2 rs]. destruct (co_opt s2 e (v_len vw)) as [s3 re].
+  eapply fill_tail_ok; eauto using incl_refl.
 Qed.
 
 Lemma slice_ok : forall v s e, Forall (tok (allowed st (OSlice v s e))) (snd (op_slice m st v s e)).
@@ -404,6 +400,52 @@ Proof.
   simpl. constructor; [|constructor]. eapply dview_tch_ok; eauto using incl_refl. lia.
 Qed.
 
+Lemma find_idx_in : forall p l i, find_idx p l = Some i -> In i l.
+Proof.
+  intros p l. induction l as [|x r IH]; intros i H; simpl in H; [discriminate|].
+  destruct (p x); [inversion H; left; reflexivity|right; auto].
+Qed.
+
+Lemma search_fwd_ok : forall inc v x from o,
+  incl (view_region st v) (allowed st o) ->
+  Forall (tok (allowed st o)) (snd (op_search_fwd inc m st v x from)).
+Proof.
+  intros inc v x from o Hincl. unfold op_search_fwd, with_view, fail.
+  destruct (nth_error (views st) v) as [vw|] eqn:Hv; [|constructor].
+  pose proof (proj1 Inv v vw Hv) as Hok.
+  assert (Hl : 0 <= v_len vw) by (destruct Hok as (_ & ? & _); assumption).
+  destruct (is_det st (v_buf vw)); [constructor|].
+  destruct (v_len vw =? 0); [constructor|].
+  destruct (co_opt st from 0) as [st1 n].
+  destruct (n >=? v_len vw) eqn:Hn; [constructor|].
+  set (k := if n <? 0 then Z.max (v_len vw + n) 0 else n).
+  assert (Hk : 0 <= k <= v_len vw) by (unfold k; destruct (n <? 0) eqn:E; lia).
+  destruct (is_det st1 (v_buf vw)) eqn:Hd; [constructor|].
+  unfold scan. destruct (find_idx _ _) as [i|] eqn:Hf; cbn [snd]; constructor; try constructor.
+  - apply find_idx_in, In_seqZ in Hf. eapply view_tch_ok' with (v := v); eauto; lia.
+  - eapply view_tch_ok' with (v := v); eauto; lia.
+Qed.
+
+Lemma lastindexof_ok : forall v x from,
+  Forall (tok (allowed st (OLastIndexOf v x from))) (snd (op_lastindexof m st v x from)).
+Proof.
+  intros v x from. unfold op_lastindexof, with_view, fail.
+  destruct (nth_error (views st) v) as [vw|] eqn:Hv; [|constructor].
+  pose proof (proj1 Inv v vw Hv) as Hok.
+  assert (Hl : 0 <= v_len vw) by (destruct Hok as (_ & ? & _); assumption).
+  destruct (is_det st (v_buf vw)); [constructor|].
+  destruct (v_len vw =? 0) eqn:H0; [constructor|].
+  destruct (co_opt st from (v_len vw - 1)) as [st1 n].
+  set (k := if 0 <=? n then Z.min n (v_len vw - 1) else v_len vw + n).
+  assert (Hk : k <= v_len vw - 1) by (unfold k; destruct (0 <=? n) eqn:E; lia).
+  destruct (k <? 0) eqn:Hk0; [constructor|].
+  destruct (is_det st1 (v_buf vw)) eqn:Hd; [constructor|].
+  unfold scan. destruct (find_idx _ _) as [i|] eqn:Hf; cbn [snd]; constructor; try constructor.
+  - apply find_idx_in in Hf. rewrite <- in_rev in Hf. apply In_seqZ in Hf.
+    eapply view_tch_ok' with (v := v); eauto using incl_refl; lia.
+  - eapply view_tch_ok' with (v := v); eauto using incl_refl; lia.
+Qed.
+
 Lemma jlen_le_mlen : forall s0 b, jlen s0 b <= mlen s0 b.
 Proof. intros. unfold jlen, mlen. destruct (getb s0 b) as [x|]; [|lia]. destruct (b_det x); unfold blen; lia. Qed.
 
@@ -467,6 +509,9 @@ Proof.
   - constructor.
   - constructor.
   - unfold op_lens, with_view, fail. destruct (nth_error (views st) v); [|constructor]. destruct (is_det _ _); constructor.
+  - apply search_fwd_ok; auto. apply incl_refl.
+  - apply search_fwd_ok; auto. apply incl_refl.
+  - apply lastindexof_ok; auto.
 Qed.
 
 (* the regions themselves lie inside the current memory of their buffer: "inside the view" implies
